@@ -390,7 +390,8 @@ pub fn run(bytes: &[u8]) -> Outcome {
                 let labels = if src.chance(128) {
                     let mut m = HashMap::new();
                     for _ in 0..src.below(3) {
-                        m.insert(src.pick(&["r1", "env", "bad-name"]).to_string(), src.pick(LVALS).to_string());
+                        // "zz" and "a" are also metric label names: a registry label may repeat a metric's own label (name and value)
+                        m.insert(src.pick(&["r1", "env", "bad-name", "zz", "a"]).to_string(), src.pick(LVALS).to_string());
                     }
                     Some(m)
                 } else {
